@@ -506,3 +506,133 @@ def check_recurse_driver(ctx, rid):
         extra = [f'`{e}` is {p}' for e, p in g2.facts(y) if not (e.endswith('.is_group') and p is True)]
         ctx.ob(rid, 'get_sublists', _loc(gs, y), 'get_sublists yields every child that is a group', not extra,
                f'a group child is only yielded when {extra}')
+
+
+# ---------------------------------------------------------------------------
+# recursion coverage of the grouping passes (reference: the pinned tree)
+
+# pass -> group classes whose instances the pass does NOT search (it still searches inside everything else).
+# 'toplevel' = the pass only looks at the statement's own children.  Confirmed by reading; a pass may come to search
+# more (an empty skip set is always allowed) but a new skip means constructs nested in that kind of group are no longer
+# recognised there, which is what the clause/identifier/function properties quantify over ("at every nesting level").
+REF_SKIP = {
+    'group_comments': {'Comment'}, 'group_brackets': {'SquareBrackets'}, 'group_parenthesis': {'Parenthesis'}, 'group_case': {'Case'},
+    'group_if': {'If'}, 'group_for': {'For'}, 'group_begin': {'Begin'}, 'group_over': {'Over'}, 'group_functions': {'Function'},
+    'group_where': {'Where'}, 'group_period': {'Identifier'}, 'group_arrays': 'toplevel', 'group_identifier': {'Identifier'},
+    'group_order': {'Identifier'}, 'group_typecasts': {'Identifier'}, 'group_tzcasts': {'Identifier'}, 'group_typed_literal': {'TypedLiteral'},
+    'group_operator': {'Operation'}, 'group_comparison': {'Comparison'}, 'group_as': {'Identifier'}, 'group_aliased': set(),
+    'group_assignment': {'Assignment'}, 'align_comments': set(), 'group_identifier_list': {'IdentifierList'}, 'group_values': 'toplevel',
+}
+
+
+def pass_skipset(ctx, f):
+    """-> (set of class names | 'toplevel' | None when it cannot be determined, description)"""
+    from .fold import ClsRef, NotConst
+    repo, folder = ctx.repo, ctx.folder
+
+    def classes(exprs, mod, env=None):
+        out = set()
+        for e in exprs:
+            if isinstance(e, ast.Starred):
+                v = folder.eval(e.value, mod, env)
+                vs = list(v)
+            else:
+                vs = [folder.eval(e, mod, env)]
+            for v in vs:
+                if not isinstance(v, ClsRef):
+                    raise NotConst('not a class')
+                out.add(v.cls.name)
+        return out
+    decs = f.node.decorator_list
+    if len(decs) > 1:
+        return None, 'several decorators'
+    if decs:
+        d = decs[0]
+        if not isinstance(d, ast.Call):
+            return None, f'decorator `{src(d)}`'
+        try:
+            if is_name(d.func, 'recurse'):
+                return classes(d.args, f.mod), f'@{src(d)}'
+            # a decorator factory of the package that applies recurse(*X) to the closure it builds
+            fac = f.mod.funcs.get(d.func.id) if isinstance(d.func, ast.Name) else None
+            if fac is None:
+                return None, f'decorator `{src(d)}` is not resolvable'
+            a = fac.node.args
+            params = [x.arg for x in a.posonlyargs + a.args]
+            env = {}
+            for p_, v in zip(params, d.args):
+                env[p_] = folder.eval(v, f.mod)
+            for k in d.keywords:
+                if k.arg in params or k.arg in [x.arg for x in a.kwonlyargs]:
+                    env[k.arg] = folder.eval(k.value, f.mod)
+            for p_, dv in zip(params[len(params) - len(a.defaults):], a.defaults):
+                if p_ not in env:
+                    env[p_] = folder.eval(dv, fac.mod)
+            # straight-line prefix of the factory (defaults such as `if skip is None: skip = (cls,)`)
+            prefix = [s for s in fac.node.body if not isinstance(s, (ast.FunctionDef, ast.Return))]
+            folder._run_helper(ast.FunctionDef(name='_', body=prefix + [ast.Return(value=ast.Constant(value=None))], args=a, decorator_list=[]),
+                               fac.mod, env, None)
+            inner = [n for n in ast.walk(fac.node) if isinstance(n, ast.FunctionDef) and n is not fac.node
+                     and any(isinstance(x, ast.Call) and is_name(x.func, 'recurse') for x in n.decorator_list)]
+            if len(inner) != 1:
+                return None, f'decorator factory {fac.name} does not apply recurse() to exactly one closure'
+            rd = next(x for x in inner[0].decorator_list if isinstance(x, ast.Call) and is_name(x.func, 'recurse'))
+            return classes(rd.args, fac.mod, env), f'@{src(d)} -> @{src(rd)}'
+        except NotConst as e:
+            return None, f'decorator `{src(d)}` not evaluable ({e})'
+    # undecorated: a client of one of the generic drivers, or a flat pass
+    calls = [c for c in own_nodes(f.node, include_lambdas=False) if isinstance(c, ast.Call) and is_name(c.func, '_group', '_group_matching')]
+    if not calls:
+        walks = [c for c in own_nodes(f.node, include_lambdas=False) if isinstance(c, ast.Call) and (is_name(c.func, f.node.name))]
+        return ('toplevel', 'no driver call, no recursion') if not walks else (None, 'hand-written recursion')
+    out = set()
+    kinds = set()
+    for c in calls:
+        try:
+            cls_ = classes(c.args[1:2], f.mod)
+        except NotConst as e:
+            return None, f'class argument of `{src(c)[:40]}` not evaluable'
+        rec = next((k.value for k in c.keywords if k.arg == 'recurse'), None)
+        if rec is not None and isinstance(rec, ast.Constant) and rec.value is False:
+            kinds.add('toplevel')
+        else:
+            kinds.add('rec')
+            out |= cls_
+    if kinds == {'toplevel'}:
+        return 'toplevel', 'driver called with recurse=False'
+    return out, 'driver skips the class it builds'
+
+
+def check_recursion_coverage(ctx, rid, only=None):
+    repo = ctx.repo
+    grp = repo.func('sqlparse.engine.grouping.group')
+    lists = [n for n in own_nodes(grp.node) if isinstance(n, (ast.List, ast.Tuple)) and len(n.elts) > 5]
+    ctx.need(lists, 'grouping.group: pass list not found')
+    names = [e.id for e in lists[0].elts if isinstance(e, ast.Name)]
+    n = 0
+    for name in names:
+        if name not in REF_SKIP or (only and name not in only):
+            continue
+        f = grp.mod.funcs.get(name)
+        if f is None:
+            continue
+        n += 1
+        got, how = pass_skipset(ctx, f)
+        ref = REF_SKIP[name]
+        loc = _loc(f, f.node)
+        if got is None:
+            ctx.ob(rid, f'coverage:{name}', loc, f'the recursion of {name} is determined', None, how)
+            continue
+        if ref == 'toplevel':
+            ctx.ob(rid, f'coverage:{name}', loc, f'{name} is a top-level pass', True, how)
+            continue
+        if got == 'toplevel':
+            ctx.ob(rid, f'coverage:{name}', loc, f'{name} searches every nesting level', False,
+                   f'{how}: the pass no longer descends into sub-groups at all')
+            continue
+        extra = sorted(got - ref)
+        ctx.ob(rid, f'coverage:{name}', loc,
+               f'{name} searches inside every kind of group it searched before (skips at most {sorted(ref) or "nothing"})', not extra,
+               f'{how}: groups of class {extra} are no longer searched, so the construct this pass builds is not recognised inside them '
+               '(e.g. an implicit alias inside a sub-select that is itself aliased with AS)')
+    ctx.need(n >= 5, f'only {n} passes of the reference table found in grouping.group')
